@@ -60,29 +60,33 @@ type c09Part struct {
 }
 
 type c09Scenario struct {
-	Enzyme    string     `json:"enzyme"`
-	Entry     string     `json:"entry"`
-	Junctions []string   `json:"junction_overhangs"`
-	Alts      []int      `json:"alternatives_per_slot"`
-	Ring2     []string   `json:"second_ring_overhangs,omitempty"`
-	Decoys    []string   `json:"decoys,omitempty"`
-	Parts     []c09Part  `json:"parts,omitempty"`
-	Frags     []c09Frag  `json:"fragments"`
-	Order     []int      `json:"input_order"`
-	Expected  []string   `json:"expected_rings_canonical"`
-	Observed  []string   `json:"observed_rings_canonical,omitempty"`
-	Partial   int        `json:"junction_simple_partial_assemblies"`
-	Budget    int        `json:"step_budget"`
-	TaskCap   int        `json:"goroutine_cap"`
-	End       string     `json:"scheduler_end,omitempty"`
+	Enzyme    string          `json:"enzyme"`
+	Entry     string          `json:"entry"`
+	Junctions []string        `json:"junction_overhangs"`
+	Alts      []int           `json:"alternatives_per_slot"`
+	Ring2     []string        `json:"second_ring_overhangs,omitempty"`
+	Decoys    []string        `json:"decoys,omitempty"`
+	Parts     []c09Part       `json:"parts,omitempty"`
+	Frags     []c09Frag       `json:"fragments"`
+	Order     []int           `json:"input_order"`
+	Expected  []string        `json:"expected_rings_canonical"`
+	Observed  []string        `json:"observed_rings_canonical,omitempty"`
+	Partial   int             `json:"junction_simple_partial_assemblies"`
+	Budget    int             `json:"step_budget"`
+	TaskCap   int             `json:"goroutine_cap"`
+	End       string          `json:"scheduler_end,omitempty"`
 	Panics    []core.PanicRec `json:"panics,omitempty"`
 }
 
 func isPal(s string) bool { return rc(s) == s }
 
 func c09FreshOverhang(t *core.Tape, used map[string]bool, allowPal bool) string {
-	for {
-		o := randDNA(t, 4)
+	// draw a 4-mer, then probe linearly to the next admissible one: terminates for
+	// every tape (an exhausted replay tape draws zeros only)
+	idx := t.Draw(256)
+	for n := 0; n < 256; n++ {
+		k := (idx + n) % 256
+		o := string([]byte{"ACGT"[k>>6&3], "ACGT"[k>>4&3], "ACGT"[k>>2&3], "ACGT"[k&3]})
 		if used[o] || used[rc(o)] {
 			continue
 		}
@@ -93,22 +97,33 @@ func c09FreshOverhang(t *core.Tape, used map[string]bool, allowPal bool) string 
 		used[rc(o)] = true
 		return o
 	}
+	panic("harness: no admissible overhang left")
 }
 
 // c09Interior draws an interior such that forward+interior+reverse contains no
 // recognition site of the enzyme on either strand.
 func c09Interior(t *core.Tape, e c09Enzyme, f, r string, maxLen int) string {
-	for try := 0; ; try++ {
+	clean := func(s string) bool {
+		w := f + s + r
+		return !strings.Contains(w, e.Site) && !strings.Contains(w, rc(e.Site))
+	}
+	for try := 0; try < 60; try++ {
 		lo := 0
 		if try > 3 {
 			lo = 1
 		}
 		s := randDNA(t, t.Range(lo, maxLen))
-		w := f + s + r
-		if !strings.Contains(w, e.Site) && !strings.Contains(w, rc(e.Site)) {
+		if clean(s) {
 			return s
 		}
 	}
+	// deterministic fallback (an exhausted replay tape draws zeros only)
+	for _, s := range []string{"A", "C", "G", "T", "AC", "CA", "GT", "TG", "ACGT"} {
+		if clean(s) {
+			return s
+		}
+	}
+	panic("harness: no site-free interior found")
 }
 
 // c09Carrier wraps fragments into a part the enzyme will cut them out of.
